@@ -1,1 +1,393 @@
-//! Linearizability checking for per-name histories (C10). Filled in by oracle2.
+//! Per-name linearizability (C10) against a sequential map model, WGL-style search with
+//! memoisation on (linearised set, state). Also answers "what is the state of this name at
+//! sequence number s" for the listing / consistency oracles.
+use crate::log::*;
+use crate::model::*;
+use crate::oracle::Ctx;
+use crate::plan::ListKind;
+use std::collections::{BTreeSet, HashSet};
+
+#[derive(Clone, Debug, PartialEq)]
+pub enum NameState {
+    Absent,
+    /// Present; the value is the id of the create call that made the instance.
+    Present(u32),
+    Unknown,
+}
+
+pub struct Problem {
+    pub key: String,
+    pub detail: String,
+}
+
+#[derive(Clone, Debug, PartialEq)]
+enum Kind {
+    Create,
+    Delete,
+    Read,
+}
+
+#[derive(Clone, Debug, PartialEq)]
+enum Res {
+    /// Create/Delete/Read succeeded. For reads: optionally the create call whose value was echoed.
+    Ok(Option<u32>),
+    AlreadyExists,
+    NotFound,
+}
+
+#[derive(Clone, Debug)]
+struct LOp {
+    call: u32,
+    inv: u64,
+    /// u64::MAX when the outcome is unknown (abandoned / hung): effect optional, result unchecked.
+    ret: u64,
+    kind: Kind,
+    res: Option<Res>,
+    what: &'static str,
+}
+
+fn sub_value_of(ctx: &Ctx, name: &str, deadline: i32) -> Option<u32> {
+    // the create call of `name` with this effective deadline, if unique
+    let creates = ctx.m.sub_creates.get(name)?;
+    let matching: Vec<u32> = creates
+        .iter()
+        .filter(|c| matches!(&ctx.m.calls[c].req, Req::CreateSub { ack_deadline, .. } if (*ack_deadline).max(10) == deadline))
+        .cloned()
+        .collect();
+    if matching.len() == 1 {
+        Some(matching[0])
+    } else {
+        None
+    }
+}
+
+fn ops_for(ctx: &Ctx, is_sub: bool, name: &str) -> Vec<LOp> {
+    let m = ctx.m;
+    let mut ops = Vec::new();
+    for c in m.calls.values() {
+        if m.health_start.map(|h| c.inv_seq > h.0).unwrap_or(false) {
+            // the health probe runs after everything else; keep it (it is part of the history)
+        }
+        // Outcome unknown: abandoned / hung calls, and mutations answered with a "conflict"
+        // status (the resource was deleted under the request; its own effect may have happened).
+        let conflict = matches!(c.out, Some(Outcome::Err(FAILED_PRECONDITION, _)) | Some(Outcome::Err(INTERNAL, _)));
+        let mutation = matches!(c.req, Req::CreateSub { .. } | Req::DeleteSub { .. } | Req::CreateTopic { .. } | Req::DeleteTopic { .. });
+        let pending = !matches!(c.out, Some(Outcome::Ok(_)) | Some(Outcome::Err(_, _))) || (conflict && mutation);
+        let code = c.code();
+        let ret = if pending { u64::MAX } else { c.ret_seq.unwrap() };
+        let mut push = |kind: Kind, res: Option<Res>, what: &'static str| {
+            ops.push(LOp { call: c.id, inv: c.inv_seq, ret, kind, res, what });
+        };
+        let read_res = |code: Option<Code>| -> Option<Option<Res>> {
+            // Some(None) = pending read (useless, skip); None = unconstrained (drop)
+            match code {
+                Some(OK) => Some(Some(Res::Ok(None))),
+                Some(NOT_FOUND) => Some(Some(Res::NotFound)),
+                _ => None,
+            }
+        };
+        if is_sub {
+            match &c.req {
+                Req::CreateSub { sub, .. } if sub == name => {
+                    if pending {
+                        push(Kind::Create, None, "CreateSubscription");
+                    } else {
+                        match code {
+                            Some(OK) => push(Kind::Create, Some(Res::Ok(None)), "CreateSubscription"),
+                            Some(ALREADY_EXISTS) => push(Kind::Create, Some(Res::AlreadyExists), "CreateSubscription"),
+                            _ => {} // rejected before the name was looked at
+                        }
+                    }
+                }
+                Req::DeleteSub { sub } if sub == name => {
+                    if pending {
+                        push(Kind::Delete, None, "DeleteSubscription");
+                    } else {
+                        match code {
+                            Some(OK) => push(Kind::Delete, Some(Res::Ok(None)), "DeleteSubscription"),
+                            Some(NOT_FOUND) => push(Kind::Delete, Some(Res::NotFound), "DeleteSubscription"),
+                            _ => {}
+                        }
+                    }
+                }
+                Req::GetSub { sub } if sub == name && !pending => match &c.out {
+                    Some(Outcome::Ok(Resp::Sub(sv))) => push(Kind::Read, Some(Res::Ok(sub_value_of(ctx, name, sv.ack_deadline))), "GetSubscription"),
+                    Some(Outcome::Err(NOT_FOUND, _)) => push(Kind::Read, Some(Res::NotFound), "GetSubscription"),
+                    _ => {}
+                },
+                Req::Pull { sub, .. } if sub == name && !pending => {
+                    if let Some(Some(r)) = read_res(code) {
+                        push(Kind::Read, Some(r), "Pull");
+                    }
+                }
+                Req::Ack { sub, .. } if sub == name && !pending => {
+                    if let Some(Some(r)) = read_res(code) {
+                        push(Kind::Read, Some(r), "Acknowledge");
+                    }
+                }
+                Req::ModAck { sub, .. } if sub == name && !pending => {
+                    if let Some(Some(r)) = read_res(code) {
+                        push(Kind::Read, Some(r), "ModifyAckDeadline");
+                    }
+                }
+                Req::ListPage { kind: ListKind::Subs, parent, token, page_size } if !pending && token.is_empty() => {
+                    if let Some(Outcome::Ok(Resp::Subs(list, next))) = &c.out {
+                        if next.is_empty() || (list.len() as i64) < (*page_size).clamp(1, 1000) as i64 {
+                            let project = parent.strip_prefix("projects/").unwrap_or("");
+                            if name.strip_prefix("projects/").and_then(|r| r.split('/').next()) == Some(project) {
+                                match list.iter().find(|sv| sv.name == name) {
+                                    Some(sv) => push(Kind::Read, Some(Res::Ok(sub_value_of(ctx, name, sv.ack_deadline))), "ListSubscriptions"),
+                                    None => push(Kind::Read, Some(Res::NotFound), "ListSubscriptions"),
+                                }
+                            }
+                        }
+                    }
+                }
+                _ => {}
+            }
+        } else {
+            match &c.req {
+                Req::CreateTopic { topic } if topic == name => {
+                    if pending {
+                        push(Kind::Create, None, "CreateTopic");
+                    } else {
+                        match code {
+                            Some(OK) => push(Kind::Create, Some(Res::Ok(None)), "CreateTopic"),
+                            Some(ALREADY_EXISTS) => push(Kind::Create, Some(Res::AlreadyExists), "CreateTopic"),
+                            _ => {}
+                        }
+                    }
+                }
+                Req::DeleteTopic { topic } if topic == name => {
+                    if pending {
+                        push(Kind::Delete, None, "DeleteTopic");
+                    } else {
+                        match code {
+                            Some(OK) => push(Kind::Delete, Some(Res::Ok(None)), "DeleteTopic"),
+                            Some(NOT_FOUND) => push(Kind::Delete, Some(Res::NotFound), "DeleteTopic"),
+                            _ => {}
+                        }
+                    }
+                }
+                Req::GetTopic { topic } if topic == name && !pending => {
+                    if let Some(Some(r)) = read_res(code) {
+                        push(Kind::Read, Some(r), "GetTopic");
+                    }
+                }
+                Req::Publish { topic, .. } if topic == name && !pending => {
+                    if let Some(Some(r)) = read_res(code) {
+                        push(Kind::Read, Some(r), "Publish");
+                    }
+                }
+                Req::Walk { kind: ListKind::TopicSubs, parent, .. } if parent == name && !pending => {
+                    if let Some(Outcome::Ok(Resp::Walk(pages))) = &c.out {
+                        // only single-request walks are one atomic read
+                        if pages.len() == 1 {
+                            match pages[0].code {
+                                OK => push(Kind::Read, Some(Res::Ok(None)), "ListTopicSubscriptions"),
+                                NOT_FOUND => push(Kind::Read, Some(Res::NotFound), "ListTopicSubscriptions"),
+                                _ => {}
+                            }
+                        }
+                    }
+                }
+                Req::CreateSub { topic, sub, .. } if topic == name && !pending => {
+                    // The handler looks the topic up first: NOT_FOUND can only mean "topic absent";
+                    // OK / ALREADY_EXISTS / project mismatch mean it was present.
+                    let well_formed = !crate::oracle2::definitely_malformed_name(sub);
+                    match code {
+                        Some(NOT_FOUND) if well_formed => push(Kind::Read, Some(Res::NotFound), "CreateSubscription(topic lookup)"),
+                        Some(OK) | Some(ALREADY_EXISTS) => push(Kind::Read, Some(Res::Ok(None)), "CreateSubscription(topic lookup)"),
+                        _ => {}
+                    }
+                }
+                Req::ListPage { kind: ListKind::Topics, parent, token, page_size } if !pending && token.is_empty() => {
+                    if let Some(Outcome::Ok(Resp::Names(list, next))) = &c.out {
+                        if next.is_empty() || (list.len() as i64) < (*page_size).clamp(1, 1000) as i64 {
+                            let project = parent.strip_prefix("projects/").unwrap_or("");
+                            if name.strip_prefix("projects/").and_then(|r| r.split('/').next()) == Some(project) {
+                                if list.iter().any(|n| n == name) {
+                                    push(Kind::Read, Some(Res::Ok(None)), "ListTopics");
+                                } else {
+                                    push(Kind::Read, Some(Res::NotFound), "ListTopics");
+                                }
+                            }
+                        }
+                    }
+                }
+                _ => {}
+            }
+        }
+    }
+    ops.sort_by_key(|o| o.inv);
+    ops
+}
+
+/// Applies `op` to `state` (None = absent). Returns the new state if the recorded result is
+/// the one the sequential model gives, `relaxed_delete` allowing "delete OK on an absent name".
+fn apply(state: Option<u32>, op: &LOp, relaxed_delete: bool) -> Option<Option<u32>> {
+    match (&op.kind, &op.res) {
+        (Kind::Create, None) => Some(match state {
+            None => Some(op.call),
+            s => s,
+        }),
+        (Kind::Delete, None) => Some(None),
+        (Kind::Read, None) => Some(state),
+        (Kind::Create, Some(Res::Ok(_))) => {
+            if state.is_none() {
+                Some(Some(op.call))
+            } else {
+                None
+            }
+        }
+        (Kind::Create, Some(Res::AlreadyExists)) => {
+            if state.is_some() {
+                Some(state)
+            } else {
+                None
+            }
+        }
+        (Kind::Delete, Some(Res::Ok(_))) => {
+            if state.is_some() || relaxed_delete {
+                Some(None)
+            } else {
+                None
+            }
+        }
+        (Kind::Delete, Some(Res::NotFound)) => {
+            if state.is_none() {
+                Some(None)
+            } else {
+                None
+            }
+        }
+        (Kind::Read, Some(Res::Ok(val))) => match (state, val) {
+            (None, _) => None,
+            (Some(cur), Some(v)) => {
+                if cur == *v {
+                    Some(state)
+                } else {
+                    None
+                }
+            }
+            (Some(_), None) => Some(state),
+        },
+        (Kind::Read, Some(Res::NotFound)) => {
+            if state.is_none() {
+                Some(state)
+            } else {
+                None
+            }
+        }
+        _ => None,
+    }
+}
+
+struct Search<'a> {
+    ops: &'a [LOp],
+    /// ops that must be linearised (completed); the others are optional
+    required: u64,
+    relaxed_delete: bool,
+    memo: HashSet<(u64, Option<u32>)>,
+    finals: BTreeSet<Option<u32>>,
+    steps: u64,
+    collect_all: bool,
+}
+
+impl<'a> Search<'a> {
+    fn run(&mut self, done: u64, state: Option<u32>) -> bool {
+        if done & self.required == self.required {
+            self.finals.insert(state);
+            if !self.collect_all {
+                return true;
+            }
+            // optional ops may still be applied: continue exploring
+        }
+        if !self.memo.insert((done, state)) {
+            return false;
+        }
+        self.steps += 1;
+        if self.steps > 400_000 {
+            return false;
+        }
+        // the earliest return among unlinearised required ops bounds what may go next
+        let mut min_ret = u64::MAX;
+        for (i, o) in self.ops.iter().enumerate() {
+            if done & (1 << i) == 0 && self.required & (1 << i) != 0 {
+                min_ret = min_ret.min(o.ret);
+            }
+        }
+        let mut found = false;
+        for (i, o) in self.ops.iter().enumerate() {
+            if done & (1 << i) != 0 || o.inv > min_ret {
+                continue;
+            }
+            let unchecked = self.required & (1 << i) == 0;
+            let as_pending;
+            let op_ref = if unchecked && o.res.is_some() {
+                // an operation still in flight at the cut: its effect is optional, its result not yet known
+                as_pending = LOp { res: None, ..o.clone() };
+                &as_pending
+            } else {
+                o
+            };
+            if let Some(next) = apply(state, op_ref, self.relaxed_delete) {
+                if self.run(done | (1 << i), next) {
+                    found = true;
+                    if !self.collect_all {
+                        return true;
+                    }
+                }
+            }
+        }
+        found
+    }
+}
+
+fn describe(ops: &[LOp]) -> String {
+    ops.iter()
+        .map(|o| format!("#{} {} [{}..{}] -> {:?}", o.call, o.what, o.inv, if o.ret == u64::MAX { "pending".to_string() } else { o.ret.to_string() }, o.res))
+        .collect::<Vec<_>>()
+        .join("; ")
+}
+
+pub fn check_name(ctx: &Ctx, is_sub: bool, name: &str) -> Option<Problem> {
+    let ops = ops_for(ctx, is_sub, name);
+    if ops.is_empty() || ops.len() > 60 {
+        return None;
+    }
+    let required: u64 = ops.iter().enumerate().filter(|(_, o)| o.ret != u64::MAX).map(|(i, _)| 1u64 << i).sum();
+    let mut s = Search { ops: &ops, required, relaxed_delete: false, memo: HashSet::new(), finals: BTreeSet::new(), steps: 0, collect_all: false };
+    if s.run(0, None) {
+        return None;
+    }
+    if s.steps > 400_000 {
+        return None; // search budget exhausted: no verdict
+    }
+    let mut relaxed = Search { ops: &ops, required, relaxed_delete: true, memo: HashSet::new(), finals: BTreeSet::new(), steps: 0, collect_all: false };
+    let key = if relaxed.run(0, None) { "overlapping_deletes_both_ok" } else { "not_linearizable" };
+    Some(Problem { key: key.to_string(), detail: format!("history has no linearization against the map model: {}", describe(&ops)) })
+}
+
+/// The state of `name` as seen by an observer at sequence number `seq`: operations that returned
+/// before `seq` are in, operations invoked before and not yet returned may or may not be.
+pub fn state_at(ctx: &Ctx, is_sub: bool, name: &str, seq: u64) -> NameState {
+    let all = ops_for(ctx, is_sub, name);
+    let ops: Vec<LOp> = all.into_iter().filter(|o| o.inv < seq && !matches!(o.kind, Kind::Read)).collect();
+    if ops.is_empty() {
+        return NameState::Absent;
+    }
+    if ops.len() > 60 {
+        return NameState::Unknown;
+    }
+    let required: u64 = ops.iter().enumerate().filter(|(_, o)| o.ret < seq).map(|(i, _)| 1u64 << i).sum();
+    let mut s = Search { ops: &ops, required, relaxed_delete: false, memo: HashSet::new(), finals: BTreeSet::new(), steps: 0, collect_all: true };
+    s.run(0, None);
+    if s.steps > 400_000 || s.finals.len() != 1 {
+        return NameState::Unknown;
+    }
+    match s.finals.iter().next().unwrap() {
+        None => NameState::Absent,
+        Some(c) => NameState::Present(*c),
+    }
+}
